@@ -177,7 +177,7 @@ PROPS = {
         "assumptions": [],
     },
     "C08": {
-        "lean_modules": ["Cachelito.Props.C08", "Cachelito.Props.T02", "Cachelito.Props.T03"],
+        "lean_modules": ["Cachelito.Props.C08", "Cachelito.Props.T02", "Cachelito.Props.T03", "Cachelito.Props.T06"],
         "streams": [core_stream(filters=[["policy=lfu"], ["policy=arc"], ["policy=tlru"], ["policy=lfu", "shape=crowd"],
                                             ["policy=arc", "shape=crowd"], ["policy=tlru", "shape=crowd"],
                                             ["policy=arc", "shape=crowd", "flavour=async"], ["policy=tlru", "shape=crowd", "flavour=async"]],
